@@ -184,6 +184,41 @@ class LabReplay:
                 out.call = f"Container({ev['n']!r}, {cap!r}, {[(e[0].name, e[1]) for e in entries]})"
                 self.counts["impl_calls"] += 1
                 out.new = {ev["n"]: pp.Container(ev["n"], cap, entries)}
+            elif op == "create_solution":
+                sols = [inst.subs[x] for x in ev["solutes"]]
+                solvent = objs[ev["solvent"]] if ev["solvIsVessel"] else inst.subs[ev["solvent"]]
+                kw = {}
+                if ev["given"] in ("cq", "ct"):
+                    cs = [inst.concentration(rat(t), nu, du, f"{salt}c{i}") for i, (t, nu, du) in enumerate(zip(ev["conc"], ev["nu"], ev["du"]))]
+                    kw["concentration"] = cs[0] if len(cs) == 1 else cs
+                if ev["given"] in ("cq", "qt"):
+                    qs = [inst.quantity(rat(x), u, f"{salt}q{i}") for i, (x, u) in enumerate(zip(ev["qty"], ev["qu"]))]
+                    kw["quantity"] = qs[0] if len(qs) == 1 else qs
+                if ev["given"] in ("ct", "qt"):
+                    kw["total_quantity"] = inst.quantity(rat(ev["total"]), ev["tu"], salt + "t")
+                out.args = [solvent] + sols
+                out.extra["kwargs"] = kw
+                out.call = f"create_solution({ev['solutes']}, {ev['solvent']}, {ev['n']!r}, {kw})"
+                self.counts["impl_calls"] += 1
+                r = pp.Container.create_solution(sols[0] if len(sols) == 1 else sols, solvent, ev["n"], **kw)
+                if ev["solvIsVessel"]:
+                    out.new = {ev["solvent"]: r[0], ev["n"]: r[1]}
+                else:
+                    out.new = {ev["n"]: r}
+            elif op == "create_solution_from":
+                src = objs[ev["src"]]
+                solvent = objs[ev["solvent"]] if ev["solvIsVessel"] else inst.subs[ev["solvent"]]
+                cs = inst.concentration(rat(ev["t"]), ev["nu"], ev["du"], salt + "c")
+                q = inst.quantity(rat(ev["total"]), ev["tu"], salt + "t")
+                out.args = [src, solvent, inst.subs[ev["solute"]]]
+                out.call = f"create_solution_from({ev['src']}, {ev['solute']}, {cs!r}, {ev['solvent']}, {q!r}, {ev['n']!r})"
+                out.extra["conc_str"] = cs
+                self.counts["impl_calls"] += 1
+                r = pp.Container.create_solution_from(src, inst.subs[ev["solute"]], cs, solvent, q, ev["n"])
+                if ev["solvIsVessel"]:
+                    out.new = {ev["src"]: r[0], ev["solvent"]: r[1], ev["n"]: r[2]}
+                else:
+                    out.new = {ev["src"]: r[0], ev["n"]: r[1]}
             else:
                 raise NotImplementedError(op)
             out.ok = True
@@ -228,7 +263,7 @@ class LabReplay:
         self.by_class[ck] = self.by_class.get(ck, 0) + 1
         ctx = dict(objs=objs, ev=ev, out=out, spec_pre=spec_pre, spec_post=spec_post, k=k, pre_key=pre_key, st=st)
         for mon in (self.mon_c04, self.mon_c03, self.mon_c01, self.mon_c02, self.mon_c07, self.mon_c10,
-                    self.mon_c11, self.mon_c17, self.mon_c19):
+                    self.mon_c11, self.mon_c17, self.mon_c19, self.mon_c05, self.mon_c12):
             mon(ctx)
         # does the implementation follow the specification on this transition?
         matched = self.conforms(ctx)
@@ -292,6 +327,14 @@ class LabReplay:
         elif op == "dilute":
             key.update(nu=ev["nu"], du=ev["du"], ncomp=min(ev["ncomp"], 3), solvent_present=ev["solventPresent"],
                        solute_kind=KIND[ev["solute"]], solvent_kind=KIND[ev["solvent"]])
+        elif op == "create_solution":
+            key.update(given=ev["given"], nsolutes=len(ev["solutes"]), solvent="container" if ev["solvIsVessel"] else "pure",
+                       solute_kinds="+".join(KIND[x] for x in ev["solutes"]),
+                       units="|".join((f"{a}/{b}" for a, b in zip(ev["nu"], ev["du"])) if ev["given"] != "qt" else ev["qu"]),
+                       tu=ev["tu"] if ev["given"] != "cq" else "-", qu="|".join(ev["qu"]) if ev["given"] != "ct" else "-")
+        elif op == "create_solution_from":
+            key.update(nu=ev["nu"], du=ev["du"], tu=ev["tu"], solvent="container" if ev["solvIsVessel"] else "pure",
+                       ncomp=ev["ncomp"], stock=ev["src"], solute_kind=KIND[ev["solute"]])
         return key
 
     # ---- monitors ----------------------------------------------------------------------------------------
@@ -763,3 +806,158 @@ class LabReplay:
 
     def mon_c19(self, ctx):
         pass
+
+    # ---- C05 / C12 ---------------------------------------------------------------------------------------------
+    def conc_tol(self, t, nu, du):
+        """relative tolerance for a stated concentration: the library rounds it to 10 decimals in base units."""
+        base = abs(float(self.inst.conc_base(t, nu, du)))
+        return 1e-6 + (1e-10 / base if base > 0 else 0.0)
+
+    def mon_c05(self, ctx):
+        ev, out, objs, inst = ctx["ev"], ctx["out"], ctx["objs"], self.inst
+        if ev["op"] != "create_solution":
+            return
+        self.ran("C05")
+        key = self.key_of(ev, ctx["spec_pre"])
+        cls = ev["cls"]
+        n = len(ev["solutes"])
+        bases = [abs(float(inst.conc_base(rat(t), nu, du))) for t, nu, du in zip(ev["conc"], ev["nu"], ev["du"])] if ev["given"] != "qt" else [1.0]
+        well_scaled = min(bases) >= 1e-2
+        if ev["res"] != "ok":
+            if out.ok:
+                self.report("C05", "impossible_mixture_accepted", key, f"{out.call}: no such mixture exists ({cls}) but a container was returned", ev, ctx["pre_key"])
+            elif not isinstance(out.exc, ValueError):
+                self.report("C05", "refusal_not_ValueError", dict(key, exc=type(out.exc).__name__), f"{out.call}: raised {type(out.exc).__name__}: {out.exc}", ev, ctx["pre_key"])
+            return
+        if not out.ok:
+            overdetermined = n >= 2 and ev["given"] == "cq"
+            if cls == "interior" and (well_scaled or not overdetermined):
+                self.report("C05", "feasible_refused", dict(key, exc=type(out.exc).__name__), f"{out.call}: a mixture exists but the call raised {type(out.exc).__name__}: {out.exc}", ev, ctx["pre_key"])
+            return
+        res = out.new[ev["n"]]
+        mc, foreign = self.model_contents(res)
+        allowed = set(ev["solutes"]) | ({s for s, x in ctx["spec_pre"][ev["solvent"]]["w"][0]["c"].items() if x != 0} if ev["solvIsVessel"] else {ev["solvent"]})
+        if foreign or any(abs(x) > 1e-9 and s not in allowed for s, x in mc.items()):
+            self.report("C05", "foreign_substance", key, f"{out.call}: result holds {sorted(mc)} {foreign}", ev, ctx["pre_key"])
+            return
+        for s in allowed:
+            if not mc.get(s, 0.0) > 0:
+                self.report("C05", "component_not_positive", key, f"{out.call}: amount of {s} is {mc.get(s, 0.0)!r}", ev, ctx["pre_key"])
+                return
+        # every stated constraint, in its own unit (mirror of Chem.tla on the returned contents)
+        def meas(c, u):
+            return sum(x * float(per_unit(s, u)) for s, x in c.items())
+        if ev["given"] in ("cq", "ct"):
+            for i, s in enumerate(ev["solutes"]):
+                t = rat(ev["conc"][i])
+                got = mc.get(s, 0.0) * float(per_unit(s, ev["nu"][i])) / meas(mc, ev["du"][i])
+                if abs(got - float(t)) > self.conc_tol(t, ev["nu"][i], ev["du"][i]) * abs(float(t)) * (10 if n >= 2 else 1):
+                    self.report("C05", "concentration_not_met", key, f"{out.call}: concentration of {s} is {got!r} model units, stated {float(t)!r}", ev, ctx["pre_key"])
+                    return
+        if ev["given"] in ("cq", "qt"):
+            for i, s in enumerate(ev["solutes"]):
+                # the solvent container may itself contribute solute; the stated quantity is what was added
+                extra = 0.0
+                if ev["solvIsVessel"]:
+                    extra = float(ctx["spec_post"][ev["n"]]["w"][0]["c"][s] - rat(ev["xs"][i]))
+                got = (mc.get(s, 0.0) - extra) * float(per_unit(s, ev["qu"][i]))
+                e = float(rat(ev["qty"][i]))
+                if abs(got - e) > 1e-6 * abs(e) * (10 if n >= 2 else 1) + 1e-9:
+                    self.report("C05", "solute_quantity_not_met", key, f"{out.call}: quantity of {s} is {got!r} model units, stated {e!r}", ev, ctx["pre_key"])
+                    return
+        if ev["given"] in ("ct", "qt"):
+            got, e = meas(mc, ev["tu"]), float(rat(ev["total"]))
+            if abs(got - e) > 1e-6 * abs(e) * (10 if n >= 2 else 1) + 1e-9:
+                self.report("C05", "total_not_met", key, f"{out.call}: total is {got!r} model units, stated {e!r}", ev, ctx["pre_key"])
+                return
+        if well_scaled:
+            d = self.P.well_diff(res, ctx["spec_post"][ev["n"]]["w"][0], ctx["k"] + 10)
+            if d:
+                self.report("C05", "differs_from_unique_solution", key, f"{out.call}: {d}", ev, ctx["pre_key"])
+                return
+        if ev["solvIsVessel"]:
+            pre, resid = objs[ev["solvent"]], out.new[ev["solvent"]]
+            added = {inst.subs[s]: 0.0 for s in ev["solutes"]}
+            mres, _ = self.model_contents(resid)
+            mpre, _ = self.model_contents(pre)
+            # nothing lost: residual + solution = solvent container + solutes added; the portion is a uniform aliquot
+            fr = None
+            for s in mpre:
+                if mpre[s] <= 1e-9:
+                    continue
+                taken = mpre[s] - mres.get(s, 0.0)
+                f = taken / mpre[s]
+                if fr is None:
+                    fr = f
+                elif abs(f - fr) > 1e-6:
+                    self.report("C05", "solvent_portion_not_aliquot", key, f"{out.call}: fractions taken {fr!r} vs {f!r} ({s})", ev, ctx["pre_key"])
+                    return
+                if s not in ev["solutes"] and abs(mc.get(s, 0.0) - taken) > 1e-6 * abs(taken) + 1e-9:
+                    self.report("C05", "solvent_lost", key, f"{out.call}: {s}: taken {taken!r}, in the solution {mc.get(s, 0.0)!r}", ev, ctx["pre_key"])
+                    return
+
+    def mon_c12(self, ctx):
+        ev, out, objs, inst = ctx["ev"], ctx["out"], ctx["objs"], self.inst
+        if ev["op"] != "create_solution_from":
+            return
+        self.ran("C12")
+        key = self.key_of(ev, ctx["spec_pre"])
+        cls = ev["cls"]
+        if ev["res"] != "ok":
+            if out.ok:
+                self.report("C12", "infeasible_accepted", key, f"{out.call}: {cls} but accepted", ev, ctx["pre_key"])
+            elif not isinstance(out.exc, ValueError):
+                self.report("C12", "refusal_not_ValueError", dict(key, exc=type(out.exc).__name__), f"{out.call}: raised {type(out.exc).__name__}: {out.exc}", ev, ctx["pre_key"])
+            return
+        if not out.ok:
+            if cls == "interior":
+                self.report("C12", "feasible_refused", dict(key, exc=type(out.exc).__name__), f"{out.call}: feasible but raised {type(out.exc).__name__}: {out.exc}", ev, ctx["pre_key"])
+            return
+        new = out.new[ev["n"]]
+        mc, foreign = self.model_contents(new)
+        def meas(c, u):
+            return sum(x * float(per_unit(s, u)) for s, x in c.items())
+        t, tot = rat(ev["t"]), float(rat(ev["total"]))
+        got = meas(mc, ev["tu"])
+        if abs(got - tot) > 1e-6 * abs(tot) + 1e-9:
+            self.report("C12", "total_not_met", key, f"{out.call}: total {got!r} model units, requested {tot!r}", ev, ctx["pre_key"])
+            return
+        if cls == "interior" or not IsTiny(float(rat(ev["y"]))):
+            gotc = mc.get(ev["solute"], 0.0) * float(per_unit(ev["solute"], ev["nu"])) / meas(mc, ev["du"])
+            if abs(gotc - float(t)) > self.conc_tol(t, ev["nu"], ev["du"]) * abs(float(t)) * 3:
+                self.report("C12", "concentration_not_met", key, f"{out.call}: concentration {gotc!r} model units, requested {float(t)!r}", ev, ctx["pre_key"])
+                return
+        # conservation over the implementation's own objects: residuals + new = inputs + added pure solvent
+        names = [ev["src"]] + ([ev["solvent"]] if ev["solvIsVessel"] else [])
+        subs = set(new.contents)
+        for n_ in names:
+            subs |= set(objs[n_].contents) | set(out.new[n_].contents)
+        for s_ in subs:
+            before = sum(objs[n_].contents.get(s_, 0.0) for n_ in names)
+            after = sum(out.new[n_].contents.get(s_, 0.0) for n_ in names) + new.contents.get(s_, 0.0)
+            added = after - before
+            m = inst.model_name(s_)
+            if (not ev["solvIsVessel"]) and m == ev["solvent"]:
+                if added < -self.P.tol(before, 3):
+                    self.report("C12", "solvent_lost", key, f"{out.call}: pure solvent balance {added!r}", ev, ctx["pre_key"])
+                    return
+            elif abs(added) > 1e-7 * abs(before) + 1000 * self.P.quantum:
+                self.report("C12", "not_conserved", key, f"{out.call}: {s_.name}: inputs held {before!r}, outputs hold {after!r}", ev, ctx["pre_key"])
+                return
+        # the part taken from the stock is a uniform aliquot
+        msrc, _ = self.model_contents(objs[ev["src"]])
+        mres, _ = self.model_contents(out.new[ev["src"]])
+        fr = None
+        for s in msrc:
+            if msrc[s] <= 1e-9:
+                continue
+            f = (msrc[s] - mres.get(s, 0.0)) / msrc[s]
+            if fr is None:
+                fr = f
+            elif abs(f - fr) > 1e-6:
+                self.report("C12", "stock_portion_not_aliquot", key, f"{out.call}: fractions {fr!r} vs {f!r}", ev, ctx["pre_key"])
+                return
+
+
+def IsTiny(x):
+    return abs(x) < 1e-12
